@@ -338,8 +338,8 @@ async fn run_case(case: &Value, base: &Path, antnode: Option<&str>) -> Value {
     let options = UpgradeOptions {
         auto_restart: case["cli_upgrade_auto_restart"].as_bool().unwrap_or(false),
         env_variables,
-        force: false,
-        start_service: true,
+        force: case["force"].as_bool().unwrap_or(false),
+        start_service: case["start_service"].as_bool().unwrap_or(true),
         target_bin_path: src.clone(),
         target_version: semver::Version::new(0, 1, 2),
     };
@@ -356,15 +356,28 @@ async fn run_case(case: &Value, base: &Path, antnode: Option<&str>) -> Value {
         "log_dir": scrub(&node.log_dir_path.to_string_lossy(), base), "bin": scrub(&node.antnode_path.to_string_lossy(), base),
         "metrics_port": node.metrics_port, "node_port": node.node_port,
     });
-    let service = NodeService::new(node, Box::new(NoRpc));
-    let upgrade_ctx = match service.build_upgrade_install_context(options) {
-        Ok(c) => c,
+    // the definition ServiceManager::upgrade ACTUALLY hands to ServiceControl::install (recorded by `cap`),
+    // not the output of build_upgrade_install_context alone
+    let rpc = LiveRpc { ip: opt_str(&case["ip"]), port: listen_port };
+    let service = NodeService::new(node, Box::new(rpc));
+    let upgrade_user_mode = service.is_user_mode();
+    let installs_before = cap.0.lock().unwrap().len();
+    let mut m = ant_node_manager::ServiceManager::new(service, Box::new(cap.clone()), VerbosityLevel::Minimal);
+    let upgrade_result = match m.upgrade(options).await {
+        Ok(r) => format!("{r:?}"),
         Err(e) => return json!({ "upgrade_error": e.to_string() }),
     };
-    let upgrade_user_mode = service.is_user_mode();
+    let upgrade_ctx = {
+        let installs = cap.0.lock().unwrap();
+        if installs.len() != installs_before + 1 {
+            return json!({ "upgrade_error": format!("upgrade ({upgrade_result}) installed {} definitions", installs.len() - installs_before) });
+        }
+        installs[installs.len() - 1].0.clone()
+    };
     let mut res = json!({
         "install": ctx_view(&install_ctx, base), "upgrade": ctx_view(&upgrade_ctx, base),
         "install_user_mode": install_user_mode, "upgrade_user_mode": upgrade_user_mode, "recorded": recorded,
+        "upgrade_result": upgrade_result,
     });
     if let Some(bin) = antnode {
         res["antnode"] = json!({ "install": run_antnode(bin, &install_ctx, base), "upgrade": run_antnode(bin, &upgrade_ctx, base) });
